@@ -150,6 +150,12 @@ def wire_oracle(op, impl):
         if impl != want:
             return ("readMPUB (max-msg-size %s, max-body-size %s) answered `%s`; the batch as written is `%s`"
                     % (w[1], w[2], impl[:120], want[:120]))
+    elif kind in ("hpub", "hpubcl"):
+        mx, b = int(w[1]), unhex(w[2])
+        want = "MSG_EMPTY" if not b else ("MSG_TOO_BIG" if len(b) > mx else "ok " + b.hex())
+        if impl != want:
+            return ("POST /pub of %d bytes with max-msg-size %d answered `%s`; expected `%s`"
+                    % (len(b), mx, impl[:80], want[:80]))
     elif kind in ("textmpub", "textmpubcl"):
         want = textmpub_expect(unhex(w[3]), int(w[1]), int(w[2]), kind == "textmpubcl")
         if impl != want:
